@@ -752,10 +752,13 @@ def _check_locations(ctx, prog, W, R, exp_ci, imp_ci):
     handled = {}
     for name, defs in imp_ci.methods.items():
         fi = defs[-1]
+        locnames = {s_.targets[0].id for s_ in walk_function(fi.node) if isinstance(s_, ast.Assign) and
+                    isinstance(s_.targets[0], ast.Name) and any(isinstance(x, ast.Constant) and x.value == "MYLOCATION"
+                                                                for x in ast.walk(s_.value))}
         for s in walk_function(fi.node):
             if isinstance(s, ast.If) and isinstance(s.test, ast.Compare) and len(s.test.ops) == 1 and \
                     isinstance(s.test.ops[0], ast.Eq) and isinstance(s.test.left, ast.Name) and \
-                    s.test.left.id == "location" and const_value(s.test.comparators[0]) is not None:
+                    s.test.left.id in locnames and const_value(s.test.comparators[0]) is not None:
                 names = set()
                 for c in calls_in(s):
                     for k in prog.resolve_call(fi, c):
